@@ -215,3 +215,20 @@ Proof.
   - intros h Hh; repeat (destruct Hh as [<-|Hh]; [vm_compute; discriminate|]); destruct Hh.
   - vm_compute. discriminate.
 Qed.
+
+(* ---- "Valid": the invariant every read-side property (C02, C04, C08, C13, C17) assumes ---- *)
+Definition Valid (s : store) := exists tip, Inv2 s tip.
+
+Theorem reachable_valid f gid gpl hs : gid <> 0%N -> positive_work hs -> nonzero_ids hs -> Valid (run f gid gpl hs).
+Proof.
+  intros Hg Hp Hn.
+  destruct (run_related f hs (init gid gpl) gid (init_inv2 gid gpl Hg) Hp Hn) as (tip' & HI' & _).
+  exists tip'. exact HI'.
+Qed.
+
+Lemma valid_tip s : Valid s -> exists t, tipB s = Some t /\ st t = Longest /\ orph t = false /\ In t s /\ best s = Some t.
+Proof.
+  intros (tip & HI & Hb). pose proof HI as (Hwf & (t & Ht & Hto) & Hl).
+  exists t. rewrite (tipB_is_tip s tip HI). split; [exact Ht|].
+  destruct (tip_is_L s tip t HI Ht) as [Hin HL]. repeat split; auto. rewrite Hb. exact Ht.
+Qed.
